@@ -263,6 +263,12 @@ class Interp:
                 path = path + (("f", pe["f"]),)
             elif isinstance(pe, dict) and "idx" in pe:
                 iv = fr.locals[pe["idx"]].v
+                cont = self.read(cell, path)
+                if isinstance(cont, Opaque) and self.h is not None:
+                    r = self.h.opaque_index(self, cont, iv, None)
+                    if isinstance(r, Ref):
+                        cell, path, off = r.cell, r.path, r.off
+                        continue
                 if not isinstance(iv, Int) or not iv.is_conc():
                     raise Undecided("symbolic index %r in %s" % (iv, fr.body["path"]))
                 path = path + (("e", iv.val + off),)
@@ -446,6 +452,8 @@ class Interp:
     def const_struct(self, j):
         if "int" in j:
             return self.mkint(j["ty"], j["int"])
+        if "ref" in j:
+            return Ref(Cell(self.const_struct(j["ref"]), "const"))
         if "adt" in j:
             return Adt(j["adt"], j["variant"], [self.const_struct(f) for f in j["fields"]])
         if "tuple" in j:
@@ -750,6 +758,9 @@ class Interp:
                     b_arg = self.tinfo(body["locals"][1]).get("k") if body["argc"] >= 1 else None
                     if b_arg == "ref":
                         args = [Ref(Cell(rv, "closure-env"))] + [args[1]]
+                if body.get("kind") == "Closure":
+                    # closure bodies take the tupled arguments spread
+                    return self.call_body(body, [args[0]] + list(args[1].fields), depth + 1)
             return self.call_body(body, args, depth + 1)
         # 4. opaque
         tg = frozenset()
@@ -822,4 +833,7 @@ class Harness:
         return None
 
     def opaque_vec_op(self, it, name, v, args, dest_ty):
+        return None
+
+    def opaque_index(self, it, v, idx, base):
         return None
